@@ -18,6 +18,7 @@ import (
 	"strings"
 	"sync"
 	"sync/atomic"
+	"time"
 
 	"cuelabs.dev/go/oci/ociregistry"
 	"cuelabs.dev/go/oci/ociregistry/ociclient"
@@ -917,6 +918,75 @@ func concurrentPhase(run *evid.Run, round int, kind string) {
 	}
 }
 
+// commitWithLateWrite: a large chunked upload (large enough for Commit's digest computation to take
+// milliseconds) is committed by one goroutine while another writes a few more bytes to the same
+// session, at a delay that sweeps across the commit. Whichever way the registry orders the two, a
+// Commit that succeeded stored exactly the bytes whose digest it was given: the late bytes either made
+// the commit fail (they arrived first) or are not part of the blob.
+func commitWithLateWrite(run *evid.Run, idx int, viaHTTP bool) {
+	mem := ocimem.New()
+	var reg ociregistry.Interface = mem
+	kind := "mem"
+	if viaHTTP {
+		r, cl := stack.HTTP(mem, stack.HTTPOpts{})
+		defer cl()
+		reg, kind = r, "http"
+	}
+	content := bytes.Repeat([]byte(fmt.Sprintf("late-write %04d ", idx)), 512*1024) // 8 MiB
+	d := desc(content)
+	w, err := mem.PushBlobChunked(context.Background(), "lw/r", 0)
+	if err != nil {
+		run.Inconclusive("commit-with-late-write setup: " + err.Error())
+		return
+	}
+	if _, err := w.Write(content); err != nil {
+		run.Inconclusive("commit-with-late-write setup: " + err.Error())
+		return
+	}
+	id := w.ID()
+	run.Eval(1)
+	var wg sync.WaitGroup
+	var cerr, lerr error
+	wg.Add(2)
+	go func() {
+		defer wg.Done()
+		_, cerr = w.Commit(d.Digest)
+	}()
+	go func() {
+		defer wg.Done()
+		time.Sleep(time.Duration(idx%12) * 400 * time.Microsecond)
+		w2, err := mem.PushBlobChunkedResume(context.Background(), "lw/r", id, -1, 0)
+		if err != nil {
+			lerr = err
+			return
+		}
+		_, lerr = w2.Write([]byte("late bytes"))
+	}()
+	wg.Wait()
+	run.Count("commits_with_late_write", 1)
+	if cerr != nil {
+		run.Count("commits_with_late_write/commit_refused", 1)
+		return
+	}
+	run.Count("commits_with_late_write/commit_succeeded", 1)
+	run.Distinct(fmt.Sprintf("commit-with-late-write/%s/late-write-ok=%v", kind, lerr == nil))
+	rd, err := reg.GetBlob(context.Background(), "lw/r", d.Digest)
+	if err != nil {
+		run.Violation("content/GetBlob-after-commit-with-late-write/"+kind+"/missing", fmt.Sprintf("Commit(%s) succeeded but the blob cannot be read: %v", d.Digest, err), map[string]any{"late_write_error": fmt.Sprint(lerr)})
+		return
+	}
+	got, rerr := drain(rd)
+	rd.Close()
+	if viaHTTP && rerr != nil {
+		// the verifying client noticed: the registry serves other bytes than it accepted
+		run.Violation("content/GetBlob-after-commit-with-late-write/http/read-error", fmt.Sprintf("Commit(%s) succeeded; reading the blob back through the client fails: %v", d.Digest, rerr), map[string]any{"late_write_error": fmt.Sprint(lerr)})
+		return
+	}
+	if rerr != nil || !bytes.Equal(got, content) {
+		run.Violation("content/GetBlob-after-commit-with-late-write/"+kind, fmt.Sprintf("Commit(%s) of %d bytes succeeded while another goroutine wrote to the session; the registry now serves %d bytes hashing to %s under that digest (read error: %v)", d.Digest, len(content), len(got), model.Digest(got), rerr), map[string]any{"late_write_error": fmt.Sprint(lerr)})
+	}
+}
+
 func main() {
 	run := evid.Start("C01", "exploration")
 	run.SetRule("cases: (stack ∈ 10 recipes) × (push path ∈ PushBlob, chunked one/many writes, mount, manifest by tag / by digest, raw single-POST, raw manifest PUT by digest) × generated contents (lengths 0,1,2,3,5,8, 8 KiB±1, 64 KiB±1, random; NUL/UTF-8 fragments) followed by complete reads, ResolveBlob and range reads (all (o0,o1) in [-1..len+2]² for len ≤ 8, boundary and random pairs otherwise); bad pushes (declared digest of other bytes, size ±1, size 0, truncated/extended content, wrong commit digest, raw wrong-digest POST/PUT); a corrupting peer between ociclient and ociserver applying one of 10 corruptions to GET responses; concurrent rounds of 8–16 goroutines pushing, deleting and reading a shared set of digests under the race detector. " +
@@ -950,6 +1020,10 @@ func main() {
 	rawPaths(run, run.N(80, 1200))
 	proxyRangeTruncation(run, run.N(60, 1500))
 	run.FloorCounter("proxy_range_reads_truncated_upstream", 30)
+	for i, n := 0, run.N(24, 240); i < n; i++ {
+		commitWithLateWrite(run, i, i%4 == 3)
+	}
+	run.FloorCounter("commits_with_late_write/commit_succeeded", 6)
 	corruptingPeer(run, run.N(700, 20000))
 	rounds := run.N(30, 600)
 	for r := 0; r < rounds; r++ {
